@@ -96,10 +96,18 @@ def _span_from_derive(sp):
     return False
 
 
+def _stamp(path):
+    try:
+        st = os.stat(path)
+        return [st.st_size, int(st.st_mtime * 1000)]
+    except OSError:
+        return None
+
+
 def compile_one(src, cfgs=(), crate_type="lib", externs=None, edition="2021", use_cache=True, extra=()):
     dylib = build_anchor()
     key = sha(json.dumps(["obj2", src, list(cfgs), crate_type, edition, _anchor["hash"], _anchor["rustc"],
-                          sorted((externs or {}).items()), list(extra)]))
+                          sorted((k, v, _stamp(v)) for k, v in (externs or {}).items()), list(extra)]))
     cdir = os.path.join(WORK, "e2cache", key[:2])
     cpath = os.path.join(cdir, key + ".json")
     if use_cache and os.path.exists(cpath):
